@@ -88,6 +88,118 @@ Definition unlines (ls : list str) : str := concat (map (fun l => l ++ [LF]) ls)
 
 Definition is_comment (l : str) : bool := startswith [35%N] l.
 
+(** * The lines of a dumped paragraph, as Policy 5.1 writes them
+    ("Name: first line", then the continuation lines as they are; no blank after
+    the colon when the first line is empty). *)
+Definition head_line (k first : str) : str :=
+  k ++ 58%N :: match first with [] => [] | _ => SP :: first end.
+Definition sfield_lines (f : sfield) : list str :=
+  match f with (k, first, conts) => head_line k first :: conts end.
+Definition spara_lines (p : spara) : list str := concat (map sfield_lines p).
+
+(** (name, value) -> (name, first line, continuation lines) *)
+Definition sfield_of (kv : str * str) : sfield :=
+  match split_on LF (snd kv) with
+  | first :: conts => (fst kv, first, conts)
+  | [] => (fst kv, [], [])
+  end.
+
+(** * Documents as line lists (the property's quantifier)
+
+    A blank separator line: empty, or spaces/tabs when whitespace separates
+    paragraphs ([ws = true], the default).  Initial blank lines of a paragraph
+    may always contain spaces/tabs. *)
+Definition ws_line (l : str) : bool := forallb is_sp_tab l.
+Definition sep_line (ws : bool) (l : str) : bool := if ws then ws_line l else match l with [] => true | _ => false end.
+(** a separator block: at least one line; the first one ends the paragraph *)
+Definition valid_seps (ws : bool) (seps : list str) : bool :=
+  match seps with
+  | [] => false
+  | s :: more => sep_line ws s && forallb ws_line more
+  end.
+
+Definition s_begin_signed : str :=
+  [45;45;45;45;45;66;69;71;73;78;32;80;71;80;32;83;73;71;78;69;68;32;77;69;83;83;65;71;69;45;45;45;45;45]%N.
+Definition s_begin_signature : str :=
+  [45;45;45;45;45;66;69;71;73;78;32;80;71;80;32;83;73;71;78;65;84;85;82;69;45;45;45;45;45]%N.
+Definition s_end_signature : str :=
+  [45;45;45;45;45;69;78;68;32;80;71;80;32;83;73;71;78;65;84;85;82;69;45;45;45;45;45]%N.
+
+(** trailing blanks tolerated on an armour line: CR is a line boundary for the
+    str/bytes forms, so only spaces and tabs *)
+Definition armor_pad (w : str) : bool := forallb is_sp_tab w.
+
+(** an armour header line ("Hash: SHA256") or signature line (base64): any text
+    that is not blank and does not begin like an armour line *)
+Definition s_dashes5 : str := [45;45;45;45;45]%N.
+Definition armor_text_line (l : str) : bool :=
+  no_linebreak l && negb (forallb bytes_isspace l) && negb (startswith s_dashes5 l).
+(** signature lines may also be blank *)
+Definition sig_line (l : str) : bool := no_linebreak l && negb (startswith s_dashes5 l).
+
+Record armor := mkArmor {
+  a_w1 : str; a_w2 : str; a_w3 : str;      (* padding after the three armour lines *)
+  a_hdr : list str;                         (* header lines *)
+  a_blank : str;                            (* the blank line that ends the header *)
+  a_sig : list str;                         (* lines between BEGIN/END PGP SIGNATURE *)
+}.
+
+Definition valid_armor (ws : bool) (a : armor) : bool :=
+  armor_pad (a_w1 a) && armor_pad (a_w2 a) && armor_pad (a_w3 a)
+  && forallb armor_text_line (a_hdr a) && sep_line ws (a_blank a) && forallb sig_line (a_sig a).
+
+(** the clearsign envelope around the lines [body] *)
+Definition armor_head (a : armor) : list str :=
+  (s_begin_signed ++ a_w1 a) :: a_hdr a ++ [a_blank a].
+Definition armor_tail (a : armor) : list str :=
+  (s_begin_signature ++ a_w2 a) :: a_sig a ++ [s_end_signature ++ a_w3 a].
+Definition armor_lines (a : armor) (body : list str) : list str :=
+  armor_head a ++ body ++ armor_tail a.
+
+(** the lines of a paragraph given as (name, value) pairs *)
+Definition para_lines (d : list (str * str)) : list str := spara_lines (map sfield_of d).
+
+(** One paragraph of a document with what surrounds it: an optional clearsign
+    envelope, then the blank lines that follow. *)
+Record block := mkBlock {
+  b_para : list (str * str);
+  b_armor : option armor;
+  b_seps : list str;
+}.
+
+Definition wrap_lines (oa : option armor) (body : list str) : list str :=
+  match oa with None => body | Some a => armor_lines a body end.
+
+Definition block_lines (b : block) : list str :=
+  wrap_lines (b_armor b) (para_lines (b_para b)) ++ b_seps b.
+
+Definition is_nil' {A} (l : list A) : bool := match l with [] => true | _ => false end.
+
+(** [last]: nothing follows the block, so an unsigned paragraph needs no
+    separator.  A signed paragraph ends at its END line: separators optional. *)
+Definition valid_block (ws last : bool) (b : block) : bool :=
+  valid_para (b_para b) && negb (is_nil' (b_para b))
+  && match b_armor b with
+     | None => valid_seps ws (b_seps b) || (last && is_nil' (b_seps b))
+     | Some a => valid_armor ws a && forallb ws_line (b_seps b)
+     end.
+
+Fixpoint valid_blocks (ws : bool) (bs : list block) : bool :=
+  match bs with
+  | [] => true
+  | b :: bs' => valid_block ws (is_nil' bs') b && valid_blocks ws bs'
+  end.
+
+(** a document: optional leading blank lines, then the blocks *)
+Definition doc_lines (lead : list str) (bs : list block) : list str :=
+  lead ++ concat (map block_lines bs).
+
+(** text of a list of lines with a chosen line end *)
+Definition unlines_with (eol : str) (ls : list str) : str := concat (map (fun l => l ++ eol) ls).
+Definition eol_of (crlf : bool) : str := if crlf then [CR; LF] else [LF].
+
+Definition not_comment (l : str) : bool := negb (is_comment l).
+
 (** * C08 *)
 
 Fixpoint spec_set (d : list (str * str)) (k v : str) : list (str * str) :=
